@@ -120,6 +120,7 @@ func genC12(r *sim.Rng, i int) *c12Case {
 		if len(c.Events) >= 2 && r.Chance(1, 6) {
 			m := r.Intn(len(c.Events) - 1)
 			c.Mute = m + 1
+			c.Complete = nil // (a completion pattern seen earlier would end the dialogue before the silent event)
 			c.Events[m].Step = "% working on it"
 			if c.DelayUS > 300 {
 				c.DelayUS = 300
@@ -286,10 +287,10 @@ func runC12Case(id string, c *c12Case) {
 			case len(writes) > 2*c.Mute:
 				cs.Oracle = fmt.Sprintf("event %d's input was transmitted although event %d's expected response never arrived (%d writes reached the device, the send returned %v)", c.Mute, c.Mute-1, len(writes), e)
 				cs.Sig = "C12:typed-ahead"
-			case e == nil:
+			case e == nil && len(c.Complete) == 0:
 				cs.Oracle = fmt.Sprintf("the send succeeded although the device never gave event %d's expected response", c.Mute-1)
 				cs.Sig = "C12:no-error"
-			case errClass(e) != "timeout":
+			case e != nil && errClass(e) != "timeout":
 				cs.Oracle = "unexpected error " + e.Error()
 				cs.Sig = "C12:error:" + errClass(e)
 			}
